@@ -7,6 +7,7 @@ import (
 	"os"
 	"path/filepath"
 	"strings"
+	"time"
 
 	"github.com/oauth2-proxy/oauth2-proxy/v7/pkg/authentication/basic"
 	"github.com/oauth2-proxy/oauth2-proxy/v7/verifx/vfsnotify"
@@ -49,7 +50,9 @@ func c20WatchRun(c *Ctx, cs c20WatchCase) (key, msg string) {
 	if err != nil {
 		panic(err)
 	}
-	defer os.RemoveAll(dir)
+	// (the directory stays until the process ends: an implementation may reload later than the event
+	// handler returns — a debounce, a goroutine — and would find the file gone; the emails loader
+	// then calls Fatalf, i.e. os.Exit)
 	path := filepath.Join(dir, "list")
 	var oldC, newC string
 	var valid func(old bool) bool // does a validation answer from the old (true) / new (false) contents?
@@ -115,6 +118,17 @@ func c20WatchRun(c *Ctx, cs c20WatchCase) (key, msg string) {
 	if !w.Deliver(vfsnotify.Event{Name: path, Op: vfsnotify.Chmod}, 30) {
 		return "C20/watcher/stops-handling-events", fmt.Sprintf("%s file: after events %v the watcher no longer takes events (30 s)", cs.File, cs.Events)
 	}
+	// the reload may be asynchronous to the event handler (settle time, goroutine): new contents have to
+	// be in force eventually — within 5 s of real time, the one generous wait of this part, only ever
+	// spent in full when the reload does not come
+	if trigger && !valid(false) {
+		for i := 0; i < 100 && !valid(false); i++ {
+			time.Sleep(50 * time.Millisecond)
+		}
+		if valid(false) {
+			c.Inc("watcher_sequences_with_delayed_reload")
+		}
+	}
 	switch {
 	case valid(false):
 		c.Inc("watcher_sequences_after_which_new_contents_answer")
@@ -170,6 +184,7 @@ func c20WatcherEvents(c *Ctx) {
 					k, _ := c20WatchRun(c, cs)
 					return k, k != ""
 				})
+				return // one confirmed case is enough (each costs the full wait)
 			}
 		}
 	}
